@@ -11,7 +11,7 @@ META = dict(
 )
 
 TOL = '0x1p-20'
-PRE = gates.COQ_HEADER + 'From VF Require Import Sim.Ref.\n'
+PRE = gates.COQ_HEADER + 'From VF Require Import Sim.Ref Sim.Measure Gates.Channels.\nDefinition R (x : float) : FC := (x, 0).\n'
 
 
 def mat_gate(u, shape):
@@ -43,6 +43,8 @@ def run(ctx):
     wrapper_stream(ctx, cirq, mods, checks, 120 * n)
     circuit_op_grid(ctx, cirq, mods, checks, n)
     control_grid(ctx, cirq, mods, checks, n)
+    control_phase_grid(ctx, cirq, mods, checks, n)
+    noise_channel_grid(ctx, cirq, mods, checks, n)
     predicate_stream(ctx, cirq, mods, 300 * n)
     evaluate(ctx, checks)
 
@@ -201,6 +203,67 @@ def channel_stream(ctx, cirq, mods, checks, n):
             checks.append(('superoperator', f'fcll_close {TOL} (kron FOps (gate_model FOps {g.coq()}) (mconj FOps (gate_model FOps {g.coq()}))) {gates.fmat(sup)}',
                            f'superoperator of {g.fam} {g.key()[1]} is not U (x) conj U', dict(signature=f'superoperator:{g.fam}', gate=g.key())))
             ctx.count('superoperator', g.key(), True)
+
+
+def noise_channel_grid(ctx, cirq, mods, checks, n):
+    """The library's parametrised noise channels at special and NEAR-special parameter values (0, 1, and 1e-9 .. 1e-4 away from them,
+    fixed for every seed, plus generic ones): every description of the channel's effect on one qubit of a random two-qubit density
+    matrix - apply_channel on either axis pair, the Kraus sum, the mixture, the superoperator, DensityMatrixSimulator, act_on of a
+    density-matrix simulation state - must be the map of the documented Kraus operators (Gates/Channels.v), applied in Coq."""
+    rng = ctx.rng
+    R = lambda x: f'(R {gates.fl(x)})'
+    eps = [1e-9, 1e-7, 1e-6, 1e-5, 1e-4, 1e-3]
+    ps = [0.0, 1.0, 0.5, 0.3] + eps + [1 - e for e in eps] + [round(rng.random(), 5) for _ in range(2 * n)]
+    chans = []
+    for p in ps:
+        chans += [('bit_flip', cirq.bit_flip(p), f'kraus_bit_flip FOps {R(math.sqrt(1 - p))} {R(math.sqrt(p))}', dict(p=p)),
+                  ('phase_flip', cirq.phase_flip(p), f'kraus_phase_flip FOps {R(math.sqrt(1 - p))} {R(math.sqrt(p))}', dict(p=p)),
+                  ('depolarize', cirq.depolarize(p), f'kraus_depolarize FOps {R(math.sqrt(1 - p))} {R(math.sqrt(p / 3))}', dict(p=p)),
+                  ('amplitude_damp', cirq.amplitude_damp(p), f'kraus_amp_damp FOps {R(math.sqrt(1 - p))} {R(math.sqrt(p))}', dict(gamma=p)),
+                  ('phase_damp', cirq.phase_damp(p), f'kraus_phase_damp FOps {R(math.sqrt(1 - p))} {R(math.sqrt(p))}', dict(gamma=p))]
+        for g in (p, 1 - p, 0.4):
+            chans.append(('generalized_amplitude_damp', cirq.generalized_amplitude_damp(p, g),
+                          f'kraus_gen_amp_damp FOps {R(math.sqrt(p))} {R(math.sqrt(1 - p))} {R(math.sqrt(1 - g))} {R(math.sqrt(g))}', dict(p=p, gamma=g)))
+    chans.append(('reset', cirq.ResetChannel(), 'kraus_reset2 FOps', {}))
+    qs = cirq.LineQubit.range(2)
+    for ci, (name, ch, spec, params) in enumerate(chans):
+        ax = ci % 2
+        a = np.array([[complex(rng.gauss(0, 1), rng.gauss(0, 1)) for _ in range(4)] for _ in range(4)])
+        rho = a @ a.conj().T
+        rho = rho / np.trace(rho)
+        want = f'(dm_kraus FOps ({spec}) [2%nat] [{ax}%nat] [2%nat; 2%nat] {gates.fvec(rho.reshape(-1))})'
+        descs = {}
+        try:
+            t = rho.reshape(2, 2, 2, 2).astype(np.complex128)
+            r = cirq.apply_channel(ch, cirq.ApplyChannelArgs(target_tensor=t.copy(), out_buffer=np.full_like(t, 7.5), auxiliary_buffer0=np.full_like(t, -3.25),
+                                                             auxiliary_buffer1=np.full_like(t, 11.0), left_axes=[ax], right_axes=[2 + ax]))
+            descs['apply_channel'] = np.asarray(r).reshape(-1)
+            big = lambda k: np.kron(k, np.eye(2)) if ax == 0 else np.kron(np.eye(2), k)
+            descs['kraus'] = sum(big(k) @ rho @ big(k).conj().T for k in cirq.kraus(ch)).reshape(-1)
+            if cirq.has_mixture(ch):
+                descs['mixture'] = sum(pr * (big(u) @ rho @ big(u).conj().T) for pr, u in cirq.mixture(ch)).reshape(-1)
+            sim = cirq.DensityMatrixSimulator(dtype=np.complex128, split_untangled_states=bool(ci % 3))
+            descs['DensityMatrixSimulator'] = np.asarray(sim.simulate(cirq.Circuit(ch.on(qs[ax]), cirq.I(qs[1 - ax])), qubit_order=qs,
+                                                                      initial_state=rho.astype(np.complex128)).final_density_matrix).reshape(-1)
+            st = cirq.DensityMatrixSimulationState(qubits=qs, initial_state=rho.astype(np.complex128), dtype=np.complex128)
+            cirq.act_on(ch.on(qs[ax]), st)
+            descs['act_on[density matrix]'] = np.asarray(st.target_tensor).reshape(-1)
+            s1 = np.asarray(cirq.kraus_to_superoperator(cirq.kraus(ch)))      # on the single qubit
+            r1 = rho.reshape(2, 2, 2, 2)
+            other = np.einsum('abcb->ac', r1) if ax == 0 else np.einsum('abad->bd', r1)      # reduced state of the qubit the channel acts on
+        except Exception as e:
+            ctx.violation(f'noise_channel_grid:raises:{name}', f'{name} {params}: a description raised {type(e).__name__}: {e}', dict(kind='noise_channel_grid', channel=name, params=params))
+            continue
+        for dn, v in descs.items():
+            ctx.count('noise_channel_grid', [name, params, dn, ax], True, sample=dict(channel=name, params=params, description=dn))
+            checks.append(('noise_channel_grid', f'fcl_close {TOL} {want} {gates.fvec(np.asarray(v))}',
+                           f'{dn} of {name} {params} on qubit {ax} of a two-qubit density matrix is not the map of the documented Kraus operators',
+                           dict(signature=f'noise_channel_grid:{dn}:{name}', channel=name, params=params, description=dn)))
+        red = (s1 @ other.reshape(-1))
+        checks.append(('noise_channel_grid', f'fcl_close {TOL} (dm_kraus FOps ({spec}) [2%nat] [0%nat] [2%nat] {gates.fvec(other.reshape(-1))}) {gates.fvec(red)}',
+                       f'superoperator of {name} {params} does not act as the documented Kraus operators',
+                       dict(signature=f'noise_channel_grid:superoperator:{name}', channel=name, params=params, description='superoperator')))
+        ctx.count('noise_channel_grid', [name, params, 'superoperator'], True)
 
 
 def wrapper_stream(ctx, cirq, mods, checks, n):
@@ -385,51 +448,70 @@ def control_grid(ctx, cirq, mods, checks, n):
     for ci, (cdims, vals) in enumerate(cases):
         sub = subs[ci % len(subs)] if ctx.tier == 'quick' else None
         for sub in ([sub] if sub is not None else subs):
-            g = gates.G('Ctrl', dict(sub=sub, cdims=cdims, cv=('pos', vals), bools=False, as_sets=True), tuple(cdims) + sub.shape)
-            cg = g.cirq_gate(cirq, mods)
-            qs = cirq.LineQid.for_qid_shape(g.shape)
-            cqs, tqs = qs[:len(cdims)], qs[len(cdims):]
-            op_by = sub.cirq_gate(cirq, mods).on(*tqs).controlled_by(*cqs, control_values=[tuple(v) for v in vals])
-            model = f'(gate_model FOps {g.coq()})'
-            descs = {}
+            control_case(ctx, cirq, mods, checks, sub, cdims, vals, 'control_grid')
+
+
+def control_phase_grid(ctx, cirq, mods, checks, n):
+    """Controlled X/Y/Z/CZ powers and rotations over every combination of special exponents and global shifts (fixed for every seed):
+    the phase exp(i pi exponent shift) of the sub gate becomes a relative phase on the controls, and the decompositions have integer
+    short-cuts for it."""
+    quick = ctx.tier == 'quick'
+    exps = [1.0, 2.0, 3.0, -1.0, 0.5] + ([] if quick else [4.0, -2.0, 0.25, 1.5])
+    shifts = [0.0, 1.0, -0.5, 0.5, 2.0] + ([] if quick else [-1.0, 0.25, 1 / 3, 3.0])
+    subs = [gates.G(f, dict(e=e, s=sh), gates.EIG_SHAPE.get(f, (2, 2))) for f in ('XPow', 'YPow', 'ZPow', 'CZPow') for e in exps for sh in shifts]
+    subs += [gates.G(f, dict(rads=r), (2,)) for f in ('Rx', 'Ry', 'Rz') for r in (2 * math.pi, -2 * math.pi, 6 * math.pi, math.pi, 4 * math.pi, 3 * math.pi)]
+    ctrls = [([2], [[1]]), ([2, 2], [[1], [0]])] + ([] if quick else [([2], [[0]]), ([3], [[1, 2]]), ([2, 2], [[1], [1]])])
+    for sub in subs:
+        for cdims, vals in ctrls:
+            control_case(ctx, cirq, mods, checks, sub, cdims, vals, 'control_phase_grid')
+
+
+def control_case(ctx, cirq, mods, checks, sub, cdims, vals, stream):
+    g = gates.G('Ctrl', dict(sub=sub, cdims=cdims, cv=('pos', vals), bools=False, as_sets=True), tuple(cdims) + sub.shape)
+    cg = g.cirq_gate(cirq, mods)
+    qs = cirq.LineQid.for_qid_shape(g.shape)
+    cqs, tqs = qs[:len(cdims)], qs[len(cdims):]
+    op_by = sub.cirq_gate(cirq, mods).on(*tqs).controlled_by(*cqs, control_values=[tuple(v) for v in vals])
+    model = f'(gate_model FOps {g.coq()})'
+    descs = {}
+    try:
+        descs['cirq.unitary(gate)'] = cirq.unitary(cg)
+        descs['cirq.unitary(controlled_by op)'] = cirq.unitary(op_by)
+        descs['apply_unitary(gate)'] = np.asarray(cirq.apply_unitary(cg, cirq.ApplyUnitaryArgs.for_unitary(qid_shape=g.shape))).reshape(
+            int(np.prod(g.shape)), -1)
+        descs['apply_unitary(controlled_by op)'] = cirq.Circuit(op_by).unitary(qubit_order=qs, qubits_that_should_be_present=qs)
+    except Exception as e:
+        ctx.violation(stream + ':raises', f'controlled {sub.fam} with control dims {cdims} values {vals} raised {type(e).__name__}: {e}',
+                      dict(kind=stream, sub=sub.key(), cdims=cdims, vals=vals))
+        return
+    for name, u in descs.items():
+        ctx.count(stream, [sub.key(), cdims, vals, name], True, sample=dict(sub=sub.fam, control_dims=cdims, control_values=vals, description=name))
+        checks.append((stream, f'fcll_close {TOL} {model} {gates.fmat(np.asarray(u))}',
+                       f'{name} of {sub.fam} {sub.p} controlled on dims {cdims} values {vals} is not the controlled matrix',
+                       dict(signature=f'{stream}:{name}', sub=sub.key(), cdims=cdims, vals=vals, description=name)))
+    for target, label in ((cg.on(*qs), 'gate'), (op_by, 'controlled_by op')):
+        for how in ('decompose_once', 'decompose'):
             try:
-                descs['cirq.unitary(gate)'] = cirq.unitary(cg)
-                descs['cirq.unitary(controlled_by op)'] = cirq.unitary(op_by)
-                descs['apply_unitary(gate)'] = np.asarray(cirq.apply_unitary(cg, cirq.ApplyUnitaryArgs.for_unitary(qid_shape=g.shape))).reshape(
-                    int(np.prod(g.shape)), -1)
-                descs['apply_unitary(controlled_by op)'] = cirq.Circuit(op_by).unitary(qubit_order=qs, qubits_that_should_be_present=qs)
+                pieces = cirq.decompose_once(target, None) if how == 'decompose_once' else cirq.decompose(target)
             except Exception as e:
-                ctx.violation('control_grid:raises', f'controlled {sub.fam} with control dims {cdims} values {vals} raised {type(e).__name__}: {e}',
-                              dict(kind='control_grid', sub=sub.key(), cdims=cdims, vals=vals))
+                ctx.violation(stream + ':raises', f'{how} of controlled {sub.fam} ({label}) with control dims {cdims} values {vals} raised {type(e).__name__}: {e}',
+                              dict(kind=stream, sub=sub.key(), cdims=cdims, vals=vals))
                 continue
-            for name, u in descs.items():
-                ctx.count('control_grid', [sub.key(), cdims, vals, name], True, sample=dict(sub=sub.fam, control_dims=cdims, control_values=vals, description=name))
-                checks.append(('control_grid', f'fcll_close {TOL} {model} {gates.fmat(np.asarray(u))}',
-                               f'{name} of {sub.fam} {sub.p} controlled on dims {cdims} values {vals} is not the controlled matrix',
-                               dict(signature=f'control_grid:{name}', sub=sub.key(), cdims=cdims, vals=vals, description=name)))
-            for target, label in ((cg.on(*qs), 'gate'), (op_by, 'controlled_by op')):
-                for how in ('decompose_once', 'decompose'):
-                    try:
-                        pieces = cirq.decompose_once(target, None) if how == 'decompose_once' else cirq.decompose(target)
-                    except Exception as e:
-                        ctx.violation('control_grid:raises', f'{how} of controlled {sub.fam} ({label}) with control dims {cdims} values {vals} raised {type(e).__name__}: {e}',
-                                      dict(kind='control_grid', sub=sub.key(), cdims=cdims, vals=vals))
-                        continue
-                    if pieces is None:
-                        continue
-                    pieces = list(cirq.flatten_to_ops(pieces))
-                    if len(pieces) == 1 and pieces[0] == target:
-                        continue
-                    try:
-                        term = pieces_to_coq(cirq, pieces, qs)
-                    except Exception:
-                        term = None
-                    if term is None:
-                        continue
-                    ctx.count('control_grid', [sub.key(), cdims, vals, how, label], True)
-                    checks.append(('control_grid', f'fcll_close {TOL} (circ_unitary FOps {gates.nlist(g.shape)} {term}) {model}',
-                                   f'{how}({label}) of {sub.fam} {sub.p} controlled on dims {cdims} values {vals} multiplies to a different matrix',
-                                   dict(signature=f'control_grid:{how}', sub=sub.key(), cdims=cdims, vals=vals, description=f'{how}({label})')))
+            if pieces is None:
+                continue
+            pieces = list(cirq.flatten_to_ops(pieces))
+            if len(pieces) == 1 and pieces[0] == target:
+                continue
+            try:
+                term = pieces_to_coq(cirq, pieces, qs)
+            except Exception:
+                term = None
+            if term is None:
+                continue
+            ctx.count(stream, [sub.key(), cdims, vals, how, label], True)
+            checks.append((stream, f'fcll_close {TOL} (circ_unitary FOps {gates.nlist(g.shape)} {term}) {model}',
+                           f'{how}({label}) of {sub.fam} {sub.p} controlled on dims {cdims} values {vals} multiplies to a different matrix',
+                           dict(signature=f'{stream}:{how}', sub=sub.key(), cdims=cdims, vals=vals, description=f'{how}({label})')))
 
 
 def predicate_stream(ctx, cirq, mods, n):
